@@ -65,7 +65,7 @@ type ClientConn struct {
 	logger        *zap.Logger
 	closing       bool
 	closingMu     *sync.RWMutex
-	codec         frame.RawCodec
+	codec         atomic.Pointer[frame.RawCodec] // Replaced by `Handshake()` while the connection's reader is already running
 }
 
 // ConnectClient creates a new connection to an endpoint within a downstream cluster using TLS if specified.
@@ -76,8 +76,8 @@ func ConnectClient(ctx context.Context, endpoint Endpoint, config ClientConnConf
 		closingMu:     &sync.RWMutex{},
 		preparedCache: config.PreparedCache,
 		logger:        GetOrCreateNopLogger(config.Logger),
-		codec:         codecs.CustomRawCodec,
 	}
+	c.codec.Store(&codecs.CustomRawCodec)
 	var err error
 	c.conn, err = Connect(ctx, endpoint, c)
 	if err != nil {
@@ -96,7 +96,7 @@ func (c *ClientConn) Handshake(ctx context.Context, version primitive.ProtocolVe
 		value := startupKeysAndValues[i+1]
 		if strings.EqualFold("COMPRESSION", key) {
 			if codec, ok := codecs.CustomRawCodecsWithCompression[strings.ToLower(value)]; ok {
-				c.codec = codec
+				c.codec.Store(&codec)
 			} else {
 				return version, fmt.Errorf("invalid compression type: %s", value)
 			}
@@ -218,6 +218,10 @@ func (c *ClientConn) authChallenge(ctx context.Context, version primitive.Protoc
 	}
 }
 
+func (c *ClientConn) getCodec() frame.RawCodec {
+	return *c.codec.Load()
+}
+
 func (c *ClientConn) Inflight() int32 {
 	return atomic.LoadInt32(&c.inflight)
 }
@@ -269,14 +273,14 @@ func (c *ClientConn) SetKeyspace(ctx context.Context, version primitive.Protocol
 }
 
 func (c *ClientConn) Receive(reader io.Reader) error {
-	raw, err := c.codec.DecodeRawFrame(reader)
+	raw, err := c.getCodec().DecodeRawFrame(reader)
 	if err != nil {
 		return err
 	}
 
 	if raw.Header.OpCode == primitive.OpCodeEvent {
 		if c.eventHandler != nil {
-			frm, err := c.codec.ConvertFromRawFrame(raw)
+			frm, err := c.getCodec().ConvertFromRawFrame(raw)
 			if err != nil {
 				return err
 			}
@@ -327,7 +331,7 @@ func (c *ClientConn) maybePrepareAndExecute(request Request, raw *frame.RawFrame
 		}
 	}
 
-	frm, err := c.codec.ConvertFromRawFrame(raw)
+	frm, err := c.getCodec().ConvertFromRawFrame(raw)
 	if err != nil {
 		c.logger.Error("failed to decode error response", zap.Error(err))
 		return false
@@ -366,7 +370,7 @@ func (c *ClientConn) maybeCachePrepared(request Request, raw *frame.RawFrame) {
 	// response types to see if check for prepared responses.
 	if request.IsPrepareRequest() {
 
-		frm, err := c.codec.ConvertFromRawFrame(raw)
+		frm, err := c.getCodec().ConvertFromRawFrame(raw)
 		if err != nil {
 			c.logger.Error("failed to decode prepared result response", zap.Error(err))
 			return
@@ -438,7 +442,7 @@ func (c *ClientConn) SendAndReceive(ctx context.Context, f *frame.Frame) (*frame
 
 	select {
 	case r := <-request.res:
-		return c.codec.ConvertFromRawFrame(r)
+		return c.getCodec().ConvertFromRawFrame(r)
 	case e := <-request.err:
 		return nil, e
 	case <-ctx.Done():
@@ -504,13 +508,13 @@ func (r *requestSender) Send(writer io.Writer) error {
 	switch frm := r.request.Frame().(type) {
 	case *frame.Frame:
 		frm.Header.StreamId = r.stream
-		return r.conn.codec.EncodeFrame(frm, writer)
+		return r.conn.getCodec().EncodeFrame(frm, writer)
 	case *frame.RawFrame:
 		// Encode a copy of the header: a cached `PREPARE` frame is shared by every connection that re-prepares it, so the
 		// stream ID must not be written into the shared frame.
 		hdr := *frm.Header
 		hdr.StreamId = r.stream
-		return r.conn.codec.EncodeRawFrame(&frame.RawFrame{Header: &hdr, Body: frm.Body}, writer)
+		return r.conn.getCodec().EncodeRawFrame(&frame.RawFrame{Header: &hdr, Body: frm.Body}, writer)
 	default:
 		return errors.New("unhandled frame type")
 	}
